@@ -2,6 +2,8 @@ package main
 
 import (
 	"go/token"
+	"os"
+	"path/filepath"
 	"strings"
 
 	"golang.org/x/tools/go/ssa"
@@ -213,8 +215,42 @@ func c02SystemFlow(w *World, r *Report) {
 				}
 			}
 		})
-		r.Check(ok, "R3", "quotaProcessorDec.New/applyLogic-default-true", np.Pos(), "Dec processor applies its logic by default (the system flow passes no should_apply_logic parameter)")
+		// ... or the processor registry definition, from which ProcessorManager fills absent parameters
+		yamlDefault := registryParamDefault(w.Repo, "quota_processor_dec.yaml", "should_apply_logic")
+		r.Check(ok || yamlDefault == "true", "R3", "quotaProcessorDec/applyLogic-default-true", np.Pos(), "Dec processor applies its logic by default: Go default true=%v, registry quota_processor_dec.yaml should_apply_logic default=%q (the system flow passes no should_apply_logic parameter)", ok, yamlDefault)
 	}
+}
+
+// registryParamDefault reads `parameters.<param>.default` from a processor
+// registry definition (plain indentation scan; the files are flat YAML).
+func registryParamDefault(repo, file, param string) string {
+	b, err := os.ReadFile(filepath.Join(repo, modEngine, "streams/processors/registry", file))
+	if err != nil {
+		return ""
+	}
+	lines := strings.Split(string(b), "\n")
+	in := false
+	indent := 0
+	for _, l := range lines {
+		t := strings.TrimSpace(l)
+		cur := len(l) - len(strings.TrimLeft(l, " "))
+		if !in {
+			if t == param+":" {
+				in, indent = true, cur
+			}
+			continue
+		}
+		if t == "" {
+			continue
+		}
+		if cur <= indent {
+			return ""
+		}
+		if strings.HasPrefix(t, "default:") {
+			return strings.TrimSpace(strings.TrimPrefix(t, "default:"))
+		}
+	}
+	return ""
 }
 
 func c02Release(w *World, r *Report) {
